@@ -272,6 +272,10 @@ class Builder:
     def b_References(self, kids, hint):
         from pmutt.empirical.references import References
         refs = kids['references']
+        if not refs:
+            # no reference species: the offsets are given directly
+            return References(offset={'H': _f(self.rnd, -9., 9.), 'O': _f(self.rnd, -9., 9.)},
+                              references=None, descriptor='elements', T_ref=_f(self.rnd, 250., 400.))
         base = [{'H': 2}, {'O': 2}, {'H': 2, 'O': 1}]
         for i, ref in enumerate(refs):
             ref.elements = dict(base[i % 3])
@@ -676,16 +680,90 @@ def where_raised(ex):
     return found
 
 
+def unencodable(o, node, schema):
+    """Class of the deepest node of a real object that the library's encoder refuses
+    (diagnosis of a raising Encode / Reencode; tags only)."""
+    from pmutt.io.json import pmuttEncoder
+    if not is_pmutt_obj(o):
+        return None
+    slots = node['k'] if isinstance(node['k'], dict) else {}
+    for sl in schema.get(short_class(o), []):
+        kids = children(o, sl['s']) or []
+        for x, w in zip(kids, slots.get(sl['s'], [])):
+            r = unencodable(x, w, schema)
+            if r:
+                return r
+    try:
+        json.dumps(o, cls=pmuttEncoder)
+        return None
+    except Exception:
+        return short_class(o)
+
+
+def preload():
+    import importlib
+    for m in ('pmutt.io.json', 'pmutt.statmech', 'pmutt.statmech.lsr', 'pmutt.empirical.nasa',
+              'pmutt.empirical.shomate', 'pmutt.empirical.references', 'pmutt.mixture.cov', 'pmutt.chemkin',
+              'pmutt.reaction', 'pmutt.reaction.bep', 'pmutt.reaction.phasediagram', 'pmutt.omkm.reaction',
+              'pmutt.eos', 'pmutt.examples'):
+        importlib.import_module(m)
+
+
+def tree_of(o, schema):
+    """Abstract tree of a real object (objects that were not built from a TLC tree)."""
+    c = short_class(o)
+    if c not in schema or not is_pmutt_obj(o):
+        raise core.MachineryError('object of class %s is outside the schema' % c)
+    k = {}
+    for sl in schema[c]:
+        kids = children(o, sl['s'])
+        if kids is None:
+            raise core.MachineryError('%s.%s is not readable' % (c, sl['s']))
+        k[sl['s']] = [tree_of(x, schema) for x in kids]
+    return {'c': c, 'k': k}
+
+
+def _extra_lsr_floats(rnd):
+    from pmutt.statmech.lsr import LSR
+    return LSR(slope=_f(rnd, 0.1, 0.9), intercept=_f(rnd, -20., 20.), reaction=_f(rnd, -60., -5.),
+               surf_species=_f(rnd, -5., 5.), gas_species=_f(rnd, -5., 5.), notes='from floats')
+
+
+def _extra_reaction_unnamed(rnd):
+    from pmutt.reaction import Reaction
+    from pmutt.statmech import StatMech, ConstantMode
+    a = StatMech(trans_model=ConstantMode(H=_f(rnd, -3., 3.), G=_f(rnd, -3., 3.)))
+    b = StatMech(trans_model=ConstantMode(H=_f(rnd, -3., 3.), G=_f(rnd, -3., 3.)))
+    return Reaction(reactants=[a], reactants_stoich=[1.], products=[b], products_stoich=[2.])
+
+
+def _example(name):
+    def get(rnd):
+        import importlib
+        return getattr(importlib.import_module('pmutt.examples'), name)
+    return get
+
+
+EXTRAS = {'lsr_floats': _extra_lsr_floats, 'reaction_unnamed': _extra_reaction_unnamed}
+for _n in ('O2_nasa', 'H2_shomate', 'H2_ref', 'H2O_ref', 'refs', 'H2O_statmech', 'H2O_TS_statmech', 'rxn'):
+    EXTRAS['example:' + _n] = _example(_n)
+
+
 def run_lifecycle(case, schema, attrs):
     """Build the object of one abstract tree and take it through the lifecycle.
     Returns (events, mismatches)."""
     from pmutt.io.json import pmuttEncoder, json_to_pmutt
     rnd = random.Random(case['seed'])
     walker = Walker(schema, attrs)
-    tree = case['tree']
-    obj = Builder(schema, rnd).build(tree)
+    if 'extra' in case:
+        obj = copy.deepcopy(EXTRAS[case['extra']](rnd))
+        tree = tree_of(obj, schema)
+    else:
+        tree = case['tree']
+        obj = Builder(schema, rnd).build(tree)
     events = [{'ev': 'begin', 'root': tree['c']}]
     mism = []
+    obs = {}
     exp_shape = walker.expected_shape(tree)
     text = None
     dict_given = dict0 = None
@@ -736,14 +814,52 @@ def run_lifecycle(case, schema, attrs):
             call['raised'] = True
             call['err'] = type(ex).__name__
             call['where'] = where_raised(ex)
+            if name in ('Encode', 'Reencode') and call['where'] == 'unknown':
+                call['where'] = unencodable(obj if name == 'Encode' else decoded, tree, schema) or 'unknown'
             call['msg'] = str(ex)[:200]
             events.append(call)
             mism.append({'step': step, 'call': name, 'tags': {'class': call['where'], 'attr': '<raise>'},
                          'raised': '%s: %s' % (type(ex).__name__, str(ex)[:200])})
+            if name in ('Load', 'DecodeDict') and 'Reencode' not in case['life'][:step]:
+                obs.setdefault(name, 'error')
             break
         if name in ('Load', 'DecodeDict'):
             # (S->C) TLC says the decoded tree equals the original tree
-            d = walker.first_diff(exp_shape, walker.shape(decoded, tree))
+            got_shape = walker.shape(decoded, tree)
+            if 'Reencode' not in case['life'][:step]:
+                obs.setdefault(name, got_shape)
+            d = walker.first_diff(exp_shape, got_shape)
             if d:
                 mism.append({'step': step, 'call': name, 'tags': d})
-    return events, mism
+    return events, mism, obs
+
+
+def predicted_shape(p, node, schema):
+    """Outcome predicted by Cases_JsonRoundTrip (pinned tables) in the format of Walker.shape."""
+    if p == 'same':
+        return Walker(schema, {}).expected_shape(node)
+    if p.get('kind') == 'error':
+        return 'error'
+    if p.get('kind') == 'dict':
+        return {'kind': 'dict', 'c': p.get('c', 'none')}
+    out = {'kind': 'obj', 'c': p['c'], 'k': {}}
+    slots = node['k'] if isinstance(node['k'], dict) else {}
+    pk = p['k'] if isinstance(p.get('k'), dict) else {}
+    for sl in schema[node['c']]:
+        want = slots.get(sl['s'], [])
+        got = pk.get(sl['s'], [])
+        if len(got) != len(want):
+            out['k'][sl['s']] = 'len:%d' % len(got)
+        else:
+            out['k'][sl['s']] = [predicted_shape(x, w, schema) for x, w in zip(got, want)]
+    return out
+
+
+def strip_shape(sh):
+    """Drop the fields the model does not predict (tagok) from an observed shape."""
+    if not isinstance(sh, dict):
+        return sh
+    if sh.get('kind') != 'obj':
+        return {'kind': sh.get('kind'), 'c': sh.get('c', 'none')}
+    return {'kind': 'obj', 'c': sh['c'],
+            'k': {s: ([strip_shape(x) for x in v] if isinstance(v, list) else v) for s, v in sh.get('k', {}).items()}}
